@@ -154,6 +154,8 @@ class History:
             self._op_probe(*op[1:])
         elif kind == "rush":
             self._op_rush(*op[1:])
+        elif kind == "probeN":
+            self._op_probe_batch(op[1])
         elif kind == "retain":
             self._op_retain()
         elif kind == "branch":
@@ -353,6 +355,30 @@ class History:
         self.stats["probes"] += 1
         for m in self.monitors:
             self.report(m.after_probe(self, s, s2, i, i.vehicle_id))
+
+    def _op_probe_batch(self, directives) -> None:
+        """apply several instructions (at most one per vehicle) at once, and separately only those that were
+        accepted; monitors with a `batch` method compare the two results"""
+        from nrel.hive.reporting.reporter import Reporter
+        from nrel.hive.state.simulation_state.update.step_simulation_ops import apply_instructions
+
+        seen, instrs = set(), []
+        for d in directives:
+            i = self.build_instruction(*d)
+            if i.vehicle_id not in seen:
+                seen.add(i.vehicle_id)
+                instrs.append(i)
+        env2 = self.env.set_reporter(Reporter())
+        s = self.sim
+        with quiet():
+            s2 = apply_instructions(s, env2, tuple(instrs))
+            accepted = tuple(i for i in instrs if s.vehicles[i.vehicle_id].vehicle_state.instance_id != s2.vehicles[i.vehicle_id].vehicle_state.instance_id)
+            s3 = apply_instructions(s, env2, accepted)
+        self.stats["batch_probes"] += 1
+        for m in self.monitors:
+            fn = getattr(m, "batch", None)
+            if fn is not None:
+                self.report(fn(self, s, s2, instrs, s3))
 
     def _op_retain(self) -> None:
         from hv.canon import fingerprint
